@@ -229,7 +229,7 @@ func c16Drivers() []*icCfg {
 	big := hOpts{MaxSize: 10, ChanSize: 4, BufSize: 2}
 	small := hOpts{MaxSize: 2, ChanSize: 4, BufSize: 2}
 	return []*icCfg{
-		{Name: "V1-hit-miss", O: big, Pre: []icOp{S(1)}, Scripts: [][]icOp{{G(1), G(2)}, {G(1), S(2)}, {G(2), D(1)}}, Post: post},
+		{Name: "V1-hit-miss", O: big, Pre: []icOp{S(1), S(3)}, Scripts: [][]icOp{{G(1), G(2)}, {G(1), S(2)}, {G(2), D(1)}}, Post: post},
 		{Name: "V2-pressure", O: small, Pre: []icOp{S(1)}, Scripts: [][]icOp{{S2(2), G(1)}, {S(3), G(2)}, {G(3), G(1)}}, Post: post},
 		{Name: "V4-load-vs-set", O: big, Loading: true, LoadCost: 1, Scripts: [][]icOp{{L(1)}, {S2(1)}, {G(1), D(1)}}, Post: post},
 		{Name: "V3-loading", O: big, Loading: true, LoadCost: 1, Pre: []icOp{S(1)}, Scripts: [][]icOp{{L(1), L(2)}, {L(2), G(1)}, {D(1), L(1)}}, Post: post},
